@@ -52,6 +52,12 @@ def generate(rng, tier):
               "../..//../../a/b", "../../a/b/c/d", "../../../../a/b/", "a/b/../../a/b", "../../ ../../a/b"]:
         cases.append(Case("path.new", [enc(s)], meta={"s": s}))
         cases.append(Case("dep.new", [enc("pkg-[0-9]*:" + s)], meta={"s": "x:" + s}))
+    # long runs of leading '..' (9 ... 40, 62 ... 66 components): a component count or a packed shape that wraps
+    for k in list(range(9, 41)) + [62, 63, 64, 65, 66]:
+        for suf in ("a/b", "a/b/c", "a", "x/../../a/b", "../a/b"):
+            s = "../" * k + suf
+            cases.append(Case("path.new", [enc(s)], meta={"s": s}))
+        cases.append(Case("dep.new", [enc("pkg-[0-9]*:" + "../" * k + "a/b/c")], meta={"s": "x:dots%d" % k}))
     for s in ["../../.config/pkg", ".config/pkg", "../../..data/pkg", "../../.../pkg", ".../pkg", "../../cat/.pkg", "../../.a/.b", ".a/.b", "..a/b", "../../..a/b", "../.././a/b",
               "a/b\x00", "\x00/b", "a\n/b", "a/\u2028", "../../a\x7f/b", "\ufeffa/b"]:
         cases.append(Case("path.new", [enc(s)], meta={"s": s}))
